@@ -265,7 +265,7 @@ Proof.
       { cbn. destruct (find_last P rest); auto. rewrite A. reflexivity. }
       destruct (find_last P rest) as [j|] eqn:EL.
       * rewrite <- ES in FL. rewrite (find_last_shift P l k (S j) B FL). f_equal. lia.
-      * rewrite <- ES in FL. rewrite (find_last_shift P l k 0 B FL). f_equal.
+      * rewrite <- ES in FL. rewrite (find_last_shift P l k 0 B FL). f_equal. lia.
   - rewrite (find_last_none P l (find_first_none P l E)). reflexivity.
 Qed.
 
@@ -334,4 +334,145 @@ Proof.
     + destruct (find_first_some _ _ _ F) as (_ & B & _). rewrite skipn_length in B.
       rewrite s_substr_slice by lia. reflexivity.
     + rewrite s_substr_tail. reflexivity.
+Qed.
+
+(* ---- trim ---- *)
+Lemma nulfree_forall l : nulfree l = true <-> forall x, In x l -> x <> 0%Z.
+Proof.
+  unfold nulfree. rewrite forallb_forall. split; intros H x Hx; specialize (H x Hx).
+  - intros ->. discriminate.
+  - destruct (x =? 0)%Z eqn:E; auto. apply Z.eqb_eq in E. contradiction.
+Qed.
+
+Lemma msf_dropwhile chars l : nulfree l = true ->
+  skipn (m_skip_front chars l) l = dropwhile (fun c => memb c chars) l.
+Proof.
+  induction l as [|x t IH]; intros H; cbn; auto.
+  assert (Hx : (x =? 0)%Z = false).
+  { rewrite nulfree_forall in H. apply Z.eqb_neq. apply H. left. reflexivity. }
+  rewrite Hx. cbn [orb]. destruct (memb x chars); cbn; auto.
+  apply IH. rewrite nulfree_forall in *. intros y Hy. apply H. right. exact Hy.
+Qed.
+
+Lemma msf_le chars l : m_skip_front chars l <= length l.
+Proof. induction l as [|x t IH]; cbn; auto. destruct ((x =? 0)%Z || memb x chars); cbn; lia. Qed.
+
+Lemma msf_app_stop chars a x b : ((x =? 0)%Z || memb x chars) = false ->
+  m_skip_front chars (a ++ x :: b) <= length a.
+Proof.
+  intros H. induction a as [|y a IH]; cbn.
+  - rewrite H. lia.
+  - destruct ((y =? 0)%Z || memb y chars); lia.
+Qed.
+
+Lemma dropwhile_head f l x t : dropwhile f l = x :: t -> f x = false.
+Proof.
+  induction l as [|y l IH]; cbn; intros H; [discriminate|].
+  destruct (f y) eqn:E; auto. injection H as <- _. exact E.
+Qed.
+
+Lemma dropwhile_incl f l x : In x (dropwhile f l) -> In x l.
+Proof.
+  induction l as [|y l IH]; cbn; auto. destruct (f y); auto.
+Qed.
+
+Lemma rev_skipn_rev {A} (d : list A) j : rev (skipn j (rev d)) = firstn (length d - j) d.
+Proof. rewrite skipn_rev, rev_involutive. reflexivity. Qed.
+
+Lemma trim_mirror chars l : nulfree l = true ->
+  slice l (fst (m_trim_bounds chars l)) (snd (m_trim_bounds chars l)) = s_trim chars l.
+Proof.
+  intros H. unfold m_trim_bounds, s_trim, slice. cbn [fst snd].
+  set (f := fun c => memb c chars).
+  rewrite (msf_dropwhile chars l H). fold f.
+  set (d := dropwhile f l).
+  assert (ND : nulfree d = true).
+  { rewrite nulfree_forall in *. intros x Hx. apply H. eapply dropwhile_incl; eauto. }
+  assert (NR : nulfree (rev d) = true).
+  { rewrite nulfree_forall in *. intros x Hx. apply ND. apply in_rev. exact Hx. }
+  destruct d as [|x t] eqn:ED.
+  - reflexivity.
+  - assert (Fx : f x = false) by (eapply dropwhile_head; eauto).
+    assert (X0 : (x =? 0)%Z = false).
+    { rewrite nulfree_forall in ND. apply Z.eqb_neq. apply ND. left. reflexivity. }
+    assert (BK : m_skip_front chars (rev (x :: t)) <= length (x :: t) - 1).
+    { cbn [rev]. pose proof (msf_app_stop chars (rev t) x []) as M. rewrite rev_length in M.
+      cbn [length]. rewrite Nat.sub_succ, Nat.sub_0_r. apply M. rewrite X0. exact Fx. }
+    destruct (rev (x :: t)) as [|r0 rt] eqn:ER.
+    + apply (f_equal (@length Z)) in ER. rewrite rev_length in ER. cbn in ER. lia.
+    + rewrite <- ER in *. rewrite Nat.min_l by exact BK.
+      unfold f. rewrite <- (msf_dropwhile chars (rev (x :: t)) NR).
+      rewrite rev_skipn_rev. reflexivity.
+Qed.
+
+Lemma trim_bounds_full chars l : snd (m_trim_bounds chars l) = length l -> fst (m_trim_bounds chars l) = 0.
+Proof.
+  unfold m_trim_bounds. cbn [fst snd]. intros H.
+  pose proof (msf_le chars l) as M.
+  assert (length (skipn (m_skip_front chars l) l) = length l - m_skip_front chars l) by apply skipn_length.
+  lia.
+Qed.
+
+(* ---- replace ---- *)
+Lemma repl_aux_skip nee rep : forall p s, repl_aux nee rep s p = repl_aux nee rep 0 (skipn s p).
+Proof.
+  induction p as [|x t IH]; intros [|s]; cbn [repl_aux skipn]; auto.
+Qed.
+
+Lemma is_prefix_nil_r nee : nee <> [] -> is_prefix nee [] = false.
+Proof. destruct nee; [congruence|reflexivity]. Qed.
+
+Lemma repl_find nee rep : nee <> [] -> forall p,
+  repl_aux nee rep 0 p =
+  match find_first (P_sub nee) p with
+  | None => p
+  | Some k => firstn k p ++ rep ++ repl_aux nee rep 0 (skipn (k + length nee) p)
+  end.
+Proof.
+  intros NE. induction p as [|x t IH]; rewrite find_first_unfold; unfold P_sub at 1.
+  - rewrite is_prefix_nil_r by exact NE. reflexivity.
+  - cbn [repl_aux]. destruct (is_prefix nee (x :: t)) eqn:E.
+    + cbn [firstn app Nat.add]. f_equal. rewrite repl_aux_skip.
+      destruct nee as [|n0 nee']; [congruence|]. cbn [length skipn]. rewrite Nat.sub_succ, Nat.sub_0_r. reflexivity.
+    + rewrite IH. destruct (find_first (P_sub nee) t) as [k|]; cbn [option_map firstn skipn app Nat.add]; reflexivity.
+Qed.
+
+Lemma grow_ge cap len add : len + add <= grow cap len add.
+Proof.
+  unfold grow. destruct (len + add <=? cap) eqn:E; [apply Nat.leb_le in E; lia|apply or3_ge].
+Qed.
+
+Lemma m_replace_spec nee rep : nee <> [] -> forall fuel p acc cap, length p < fuel -> length acc <= cap ->
+  fst (m_replace_loop fuel nee rep p acc cap) = acc ++ repl_aux nee rep 0 p /\
+  length (fst (m_replace_loop fuel nee rep p acc cap)) <= snd (m_replace_loop fuel nee rep p acc cap).
+Proof.
+  intros NE. induction fuel as [|f IH]; intros p acc cap Hf Hc; [lia|].
+  cbn [m_replace_loop]. unfold m_strstr. rewrite (repl_find nee rep NE p).
+  destruct (find_first (P_sub nee) p) as [k|] eqn:E.
+  - destruct (find_first_some _ _ _ E) as (A & B & _).
+    assert (LN : 1 <= length nee) by (destruct nee; [congruence|cbn; lia]).
+    assert (LP : 1 <= length p).
+    { destruct p; [|cbn; lia]. destruct k; cbn in A; unfold P_sub in A; rewrite is_prefix_nil_r in A by exact NE; discriminate. }
+    pose proof (grow_ge cap (length acc) k) as G1.
+    pose proof (grow_ge (grow cap (length acc) k) (length (acc ++ firstn k p)) (length rep)) as G2.
+    destruct (IH (skipn (k + length nee) p) ((acc ++ firstn k p) ++ rep)
+                 (grow (grow cap (length acc) k) (length (acc ++ firstn k p)) (length rep))) as (I1 & I2).
+    + rewrite skipn_length. lia.
+    + rewrite app_length. lia.
+    + split; [|exact I2]. rewrite I1. rewrite <- !app_assoc. reflexivity.
+  - cbn [fst snd]. split; [reflexivity|]. rewrite app_length. apply grow_ge.
+Qed.
+
+Lemma s_replace_nomatch nee rep hay : nee <> [] -> find_first (P_sub nee) hay = None -> s_replace nee rep hay = hay.
+Proof.
+  intros NE F. unfold s_replace. destruct nee as [|n0 nee']; [congruence|].
+  rewrite (repl_find (n0 :: nee') rep NE hay), F. reflexivity.
+Qed.
+
+Lemma s_replace_loop nee rep hay cap0 : nee <> [] ->
+  fst (m_replace_loop (S (length hay)) nee rep hay [] cap0) = s_replace nee rep hay /\
+  length (fst (m_replace_loop (S (length hay)) nee rep hay [] cap0)) <= snd (m_replace_loop (S (length hay)) nee rep hay [] cap0).
+Proof.
+  intros NE. destruct (m_replace_spec nee rep NE (S (length hay)) hay [] cap0) as (A & B); [lia|cbn; lia|].
+  split; [|exact B]. rewrite A. unfold s_replace. destruct nee; [congruence|reflexivity].
 Qed.
